@@ -66,6 +66,14 @@ func c15Scenarios(tier string) (rulesSc, lockSc []CScenario) {
 		lockSc = append(lockSc, cs)
 		rulesSc = append(rulesSc, cs)
 	}
+	// Callers that give up: a request whose context is already cancelled, or is cancelled at any moment while it waits or
+	// runs, must neither block nor leave anything locked.
+	for _, b := range []CReq{att1(0, 0, 1), attsN([]int{0, 1}, 0, 1), attsN([]int{1, 0}, 0, 1), prop1(0, 5), signsN(0, 1)} {
+		pre := CScenario{Name: "given-up-before " + b.String() + ";att(0)||atts[1 0]", Threads: [][]CReq{{withCtx(b, "pre"), att1(0, 1, 2)}, {attsN([]int{1, 0}, 2, 3)}}}
+		ext := CScenario{Name: "given-up-during " + b.String() + "||cancel||atts[1 0];att(0)", Threads: [][]CReq{{withCtx(b, "ext")}, {cancelOf(0, 0)}, {attsN([]int{1, 0}, 2, 3), att1(0, 3, 4)}}}
+		lockSc = append(lockSc, pre, ext)
+		rulesSc = append(rulesSc, pre, ext)
+	}
 	rulesSc = append(rulesSc,
 		CScenario{Name: "atts[0 1]||atts[1 0]||att(1)", Threads: [][]CReq{{attsN([]int{0, 1}, 0, 1)}, {attsN([]int{1, 0}, 1, 2)}, {att1(1, 2, 3)}}},
 		CScenario{Name: "atts[0 1 2]||prop(2)||att(0)", Threads: [][]CReq{{attsN([]int{0, 1, 2}, 0, 1)}, {prop1(2, 5)}, {att1(0, 1, 2)}}},
